@@ -315,6 +315,65 @@ def _ofs_cases(args):
     return out
 
 
+def _sweep_cases(args):
+    """Drive gs.single_sweep directly (as optimize_mps does) and compare, after EVERY sweep, the energy of the working
+    state with the energy the sweep reported for its last optimised site (at sufficient bond they coincide)."""
+    bootstrap()
+    from renormalizer.model import h_qc, Model, Op
+    from renormalizer.mps import Mpo, Mps
+    from renormalizer.mps.gs import single_sweep
+    from renormalizer.mps.lib import Environ
+    from renormalizer.utils import CompressConfig, CompressCriteria
+    from renormalizer.utils.configs import OFS
+    from .. import states as st
+    seed, k, tier = args
+    out = {"cases": [], "viol": []}
+    rng = rng_for(seed, "c17sweep", k)
+    which = ["qc-jw-debug", "qc-debug", "spin-ofs"][k % 3]
+    try:
+        if which.startswith("qc"):
+            h, eri = random_integrals(2, rng, "random")
+            sh, aseri = h_qc.int_to_h(h, eri)
+            basis, terms = h_qc.qc_model(sh, aseri)
+            qntot = np.array([1, 1]) if k % 2 else np.array([2, 1])
+            ofs, swap_jw = OFS.ofs_debug, which == "qc-jw-debug"
+        else:
+            from ..concretize import make_family
+            basis, _ = make_family("spin", 4, k % 2)
+            terms = [Op("sigma_x sigma_x", [basis[i].dof, basis[j].dof], float(rng.uniform(-1, 1))) for i in range(4) for j in range(i + 1, 4)]
+            terms += [Op("sigma_z", basis[i].dof, float(rng.uniform(-1, 1))) for i in range(4)]
+            qntot, ofs, swap_jw = 0, [OFS.ofs_s, OFS.ofs_d, OFS.ofs_ds][k % 3], False
+        model = Model(list(basis), terms)
+        mpo = Mpo(model, algo="Hopcroft-Karp")
+        M = 16
+        reseed_global(seed, "sweep", k)
+        mps = Mps.random(model, qntot, M, percent=1.0)
+        mps.optimize_config.method = "2site"
+        mps.ensure_right_canonical()
+        environ = Environ(mps, mpo, "R")
+        opt_idx = None
+        detail = {"model": which, "ofs": ofs.name, "swap_jw": swap_jw, "k": k}
+        out["cases"].append(json.dumps(detail))
+        for isweep in range(5):
+            mps.compress_config = CompressConfig(CompressCriteria.fixed, max_bonddim=M, ofs=ofs, ofs_swap_jw=swap_jw)
+            micro, res_mps, mpo = single_sweep(mps, mpo, environ, None, 0.0, opt_idx)
+            opt = min(micro)
+            opt_idx = opt[1]
+            H = np.asarray(mpo.todense())
+            v = st.dense(mps)
+            e_work = (np.vdot(v, H @ v) / np.vdot(v, v)).real
+            e_last = micro[-1][0]
+            if abs(e_work - e_last) > 1e-8 * max(1.0, abs(e_last)):
+                out["viol"].append((f"C17:ofs:working-state-energy:{which}",
+                                    f"after sweep {isweep} the working state has energy {e_work} but the sweep reported {e_last} for its last update", dict(detail, sweep=isweep)))
+                break
+    except Exception as ex:
+        import traceback
+        tb = traceback.format_exc(limit=3).splitlines()
+        out["viol"].append((f"C17:ofs:sweep-raises:{which}:{type(ex).__name__}", f"{type(ex).__name__}: {ex} | {tb[-3].strip() if len(tb) > 3 else ''}", {"model": which, "k": k}))
+    return out
+
+
 def run(ctx):
     tier = ctx.tier
     M = 4
@@ -349,6 +408,7 @@ def run(ctx):
     ctx.sample({"exchange_rule_from_TLC": rules[7]})
     res = pmap(_qc_cases, [(ctx.seed, k, tier) for k in range(10 if tier == "quick" else 40)], chunksize=1)
     res += pmap(_ofs_cases, [(ctx.seed, k, tier) for k in range(12 if tier == "quick" else 48)], chunksize=1)
+    res += pmap(_sweep_cases, [(ctx.seed, k, tier) for k in range(12 if tier == "quick" else 48)], chunksize=1)
     for st_, o in res:
         if st_ != "ok":
             raise MachineryError("C17 worker failed: " + o)
